@@ -60,6 +60,23 @@ Theorem C11_accepted_grouped_schedule_returns_fixed_point {val : Type} (d : desi
   forall e r, run_groups (Bd d R) stable fuel gs e = Some r -> forall i, In i (ids d) -> fixed_under (Bd d R) i r.
 Proof. exact (accepted_groups_fixed_point d R gs wfp stable fuel). Qed.
 
+(* non-vacuity of the false-loop theorem (FalseLoop.flB: x1 := x0 + 1 ; x2 := x1 * 2, group run in the wrong order [1;0]):
+   every hypothesis holds, the iteration returns after two rounds with the reference values, and errors with bound 1 *)
+Open Scope nat_scope.
+Example C11_false_loop_nonvacuous :
+  (forall e e', flStable e e' = true -> forall v, (v =? 1) = true -> e v = e' v) /\
+  NoDup [1; 0] /\
+  (forall i, In i [1; 0] -> frame (flB i)) /\ (forall i, In i [1; 0] -> sdep (flB i)) /\
+  (forall i, In i [1; 0] -> nsl (flB i)) /\ single_writer flB [1; 0] /\
+  (forall i j v, In i [1; 0] -> In j [1; 0] -> i <> j -> wr (flB i) v = true -> rd (flB j) v = true -> (v =? 1) = true) /\
+  (forall i j, In i [1; 0] -> In j [1; 0] -> i <> j -> feeds flB i j -> flE i j = true) /\
+  Permutation [1; 0] [0; 1] /\ lin_ext flE [0; 1] /\
+  exists r, scc_iter flB [1; 0] flStable 3 (fun _ => 0) = Some r /\ r 1 = 1 /\ r 2 = 2 /\
+            run_list flB [0; 1] (fun _ => 0) 1 = 1 /\ run_list flB [0; 1] (fun _ => 0) 2 = 2 /\
+            scc_iter flB [1; 0] flStable 1 (fun _ => 0) = None.
+Proof. exact false_loop_nonvacuous. Qed.
+Close Scope nat_scope.
+
 (* non-vacuity: P writes a (sig 1) and d (sig 3), reads i (sig 0) and b (sig 2); Q writes b, reads a: one group {P,Q}
    watched a and b is accepted; watching only a is rejected; the wrong group order is rejected *)
 Definition loopd : design :=
@@ -73,4 +90,4 @@ Proof. vm_compute. repeat split. Qed.
 
 Print Assumptions C11_scc_returns_fixed_point. Print Assumptions C11_divergent_is_error. Print Assumptions C11_never_hangs.
 Print Assumptions C11_group_error_propagates. Print Assumptions C11_accepted_grouped_schedule_returns_fixed_point.
-Print Assumptions C11_false_loop_equals_acyclic_reference.
+Print Assumptions C11_false_loop_equals_acyclic_reference. Print Assumptions C11_false_loop_nonvacuous.
